@@ -517,21 +517,22 @@ Proof.
 Qed.
 
 Definition simst (self : N) (h : heap) (m : mstate) (t : tstate) : Prop :=
-  m_conj m = t_conj t /\ m_applied m = t_applied t /\ m_ids m = t_ids t /\ h_state h self = t_state t.
+  m_conj m = t_conj t /\ m_applied m = t_applied t /\ m_ids m = t_ids t /\ h_state h self = t_state t /\
+  m_rids m = t_rids t.
 
 Lemma item_step_ref self h m t i :
   h_own h (i_uid i) = Some self -> simst self h m t ->
   exists h' m', m_item_step (Ok (h, m)) i = Ok (h', m') /\ simst self h' m' (a_item_step t i) /\
                 h_own h' = h_own h /\ h_vars h' = h_vars h.
 Proof.
-  intros Ho (A & B & C & D). unfold m_item_step, a_item_step. cbn [obind fst snd].
-  assert (Ec : m_cond h (i_uid i) (i_cond i) = Ok (cond_holds (t_state t) (i_cond i))).
-  { unfold m_cond. destruct (i_cond i) as [kv|]; [rewrite Ho, D; reflexivity | reflexivity]. }
-  rewrite Ec. cbn [obind]. destruct (cond_holds (t_state t) (i_cond i)).
+  intros Ho (A & B & C & D & E). unfold m_item_step, a_item_step. cbn [obind fst snd].
+  assert (Ec : m_cond h (i_uid i) (m_rids m) (i_cond i) = Ok (cond_holds (t_state t) (t_rids t) (i_cond i))).
+  { unfold m_cond. destruct (i_cond i) as [|k v|x]; [reflexivity | rewrite Ho, D; reflexivity | rewrite E; reflexivity]. }
+  rewrite Ec. cbn [obind]. destruct (cond_holds (t_state t) (t_rids t) (i_cond i)).
   - destruct (i_kind i) as [k v|s|f v]; rewrite ?Ho; eexists; eexists; (split; [reflexivity|]);
-      unfold simst; cbn; rewrite ?A, ?B, ?C, ?D; repeat split; try reflexivity.
+      unfold simst; cbn; rewrite ?A, ?B, ?C, ?D, ?E; repeat split; try reflexivity.
     unfold upd. rewrite N.eqb_refl. reflexivity.
-  - eexists; eexists; split; [reflexivity|]. unfold simst; cbn. rewrite A, B, C, D. repeat split; reflexivity.
+  - eexists; eexists; split; [reflexivity|]. unfold simst; cbn. rewrite A, B, C, D, E. repeat split; reflexivity.
 Qed.
 
 Lemma items_ref self its : forall h m t,
@@ -553,9 +554,9 @@ Lemma post_step_ref self h acc p : h_own h (q_uid p) = Some self ->
   m_post_step h acc p = a_post_step (h_state h self) (h_vars h self) acc p.
 Proof.
   intros Ho. unfold m_post_step, a_post_step. destruct acc as [qi|t|t]; cbn [obind]; try reflexivity.
-  assert (Ec : m_cond h (q_uid p) (q_cond p) = Ok (cond_holds (h_state h self) (q_cond p))).
-  { unfold m_cond. destruct (q_cond p) as [kv|]; [rewrite Ho; reflexivity | reflexivity]. }
-  rewrite Ec. cbn [obind]. destruct (cond_holds (h_state h self) (q_cond p)); [|reflexivity].
+  assert (Ec : m_cond h (q_uid p) (pa_rids qi) (q_cond p) = Ok (cond_holds (h_state h self) (pa_rids qi) (q_cond p))).
+  { unfold m_cond. destruct (q_cond p) as [|k v|x]; [reflexivity | rewrite Ho; reflexivity | reflexivity]. }
+  rewrite Ec. cbn [obind]. destruct (cond_holds (h_state h self) (pa_rids qi) (q_cond p)); [|reflexivity].
   destruct (q_kind p); rewrite ?Ho; reflexivity.
 Qed.
 Lemma post_fold_ref self h ps : forall acc, (forall p, In p ps -> h_own h (q_uid p) = Some self) ->
@@ -564,12 +565,12 @@ Proof.
   induction ps as [|p ps IH]; intros acc Ho; [reflexivity|]. cbn [fold_left].
   rewrite (post_step_ref self) by (apply Ho; left; reflexivity). apply IH. intros q Hq. apply Ho. right. exact Hq.
 Qed.
-Lemma post_ref self h ps qs : forall ids, (forall p, In p ps -> h_own h (q_uid p) = Some self) ->
-  m_post h ps qs ids = stage_post ps (h_state h self) (h_vars h self) qs ids.
+Lemma post_ref self h ps qs : forall ids rids, (forall p, In p ps -> h_own h (q_uid p) = Some self) ->
+  m_post h ps qs ids rids = stage_post ps (h_state h self) (h_vars h self) qs ids rids.
 Proof.
-  induction qs as [|q qs IH]; intros ids Ho; [reflexivity|]. cbn [m_post stage_post]. unfold stage_post_one.
+  induction qs as [|q qs IH]; intros ids rids Ho; [reflexivity|]. cbn [m_post stage_post]. unfold stage_post_one.
   rewrite (post_fold_ref self) by exact Ho.
-  destruct (fold_left _ ps (Ok (q, ids))) as [qi|t|t]; cbn [obind]; try reflexivity.
+  destruct (fold_left _ ps (Ok _)) as [qi|t|t]; cbn [obind]; try reflexivity.
   rewrite IH by exact Ho. reflexivity.
 Qed.
 
@@ -592,15 +593,15 @@ Proof.
   destruct R as (Ea & Eo & Ev). cbn [fst snd] in *. subst a'.
   cbn [a_items a_post a_vars].
   destruct (items_ref (p_id self) (p_items self) (set_state h (p_id self) [])
-              {| m_conj := [(r_field r, r_value r)]; m_applied := []; m_ids := [] |} (t_init r))
-    as (h1 & m1 & E1 & (A & B & C & D) & O1 & V1).
+              {| m_conj := [(r_field r, r_value r)]; m_applied := []; m_ids := []; m_rids := [] |} (t_init r))
+    as (h1 & m1 & E1 & (A & B & C & D & E) & O1 & V1).
   { intros i Hi. cbn. rewrite Eo. apply Ho. apply uid_item. exact Hi. }
   { unfold simst. cbn. unfold upd. rewrite N.eqb_refl. repeat split; reflexivity. }
   unfold m_apply. rewrite E1. cbn [obind fst snd].
   cbn in O1, V1.
   rewrite (post_ref (p_id self)).
   2:{ intros p Hp. rewrite O1, Eo. apply Ho. apply uid_post. exact Hp. }
-  unfold stage_transform, stage_convert. rewrite A, B, C, D, V1, Ev.
+  unfold stage_transform, stage_convert. rewrite A, B, C, D, E, V1, Ev.
   destruct (stage_post _ _ _ _ _) as [qi|t|t]; cbn [obind]; cbn; [|reflexivity|reflexivity].
   repeat split; congruence.
 Qed.
@@ -801,7 +802,7 @@ Proof.
 Qed.
 
 (* ------------------------------------------------------------------ the history clause is false (D18) *)
-Definition w_item : pitem := {| i_uid := 1; i_id := [105]; i_kind := KSetState s_index [119;105;110]; i_cond := None |}.
+Definition w_item : pitem := {| i_uid := 1; i_id := [105]; i_kind := KSetState s_index [119;105;110]; i_cond := CNone |}.
 Definition w_h0 : heap := fst (mk_defs h_empty [ {| d_items := [w_item]; d_post := []; d_fin := []; d_vars := []; d_prio := 0%Z; d_name := None |};
                                                  {| d_items := []; d_post := []; d_fin := []; d_vars := []; d_prio := 0%Z; d_name := None |};
                                                  {| d_items := []; d_post := []; d_fin := []; d_vars := []; d_prio := 0%Z; d_name := None |} ]).
